@@ -1439,7 +1439,7 @@ func ruleCallOrder(prog *Program, rep *Report, floor int, rels ...string) {
 // (First / Get): which data the path is applied to - the optional second argument, the local value for an
 // @-path, the root otherwise - is decided by the same tests in the same order in both.
 func ruleGetTwins(prog *Program, rep *Report) {
-	rep.Rules = append(rep.Rules, "S-gettwin: the bodies of asm.get / asm.getall and of asm.set / asm.setall have the same statements once the function's own name, the name of its result, string literals and the jp.Expr method that does the work (First / Get, SetOne / Set) are replaced by placeholders - both choose the data the path is applied to by the same tests in the same order - and each function uses one method of its family in all its arms")
+	rep.Rules = append(rep.Rules, "S-gettwin: the bodies of asm.get / asm.getall, of asm.set / asm.setall and of asm's del / delall have the same statements once the function's own name, the name of its result, string literals and the jp.Expr method that does the work (First / Get, SetOne / Set, DelOne / Del) are replaced by placeholders - both choose the data the path is applied to by the same tests in the same order - and each function uses one method of its family in all its arms")
 	pk := prog.Pkg("asm")
 	if pk == nil {
 		rep.Errorf("S-gettwin: package asm not loaded")
@@ -1448,7 +1448,7 @@ func ruleGetTwins(prog *Program, rep *Report) {
 	for _, pair := range []struct {
 		a, b   string
 		family string
-	}{{"get", "getall", "First|Get"}, {"set", "setall", "SetOne|Set"}} {
+	}{{"get", "getall", "First|Get"}, {"set", "setall", "SetOne|Set"}, {"delEval", "delall", "DelOne|Del"}} {
 		lines := map[string][]string{}
 		pos := map[string]token.Pos{}
 		selRe := regexp.MustCompile(`\.(` + pair.family + `)\(`)
@@ -1495,8 +1495,8 @@ func ruleGetTwins(prog *Program, rep *Report) {
 			continue
 		}
 		rep.Eval(len(lines[pair.a]))
-		if len(lines[pair.a]) < 8 {
-			rep.Errorf("S-gettwin: asm.%s has %d statements (floor 8)", pair.a, len(lines[pair.a]))
+		if len(lines[pair.a]) < 6 {
+			rep.Errorf("S-gettwin: asm.%s has %d statements (floor 6)", pair.a, len(lines[pair.a]))
 		}
 		key := "asm." + pair.a + "=" + pair.b
 		if strings.Join(lines[pair.a], "\n") == strings.Join(lines[pair.b], "\n") {
